@@ -6,20 +6,41 @@ Require Import Grist.Model.MetaCascade Grist.Proofs.MetaCascade_base Grist.Proof
   Grist.Proofs.MetaCascade_clear Grist.Proofs.MetaCascade_regroup Grist.Proofs.MetaCascade_regroup2.
 Open Scope Z_scope.
 
+Lemma add_section_incl : forall t v b m, incl (m_sections m) (m_sections (fst (add_section t v b m))).
+Proof. intros. destruct m. unfold add_section, set_sections. simpl. apply incl_appl, incl_refl. Qed.
+
+Lemma add_view_sections : forall t raw m m' v, add_view t raw m = Ok (m', v) -> incl (m_sections m) (m_sections m').
+Proof.
+  intros t raw m m' v H. unfold add_view in H. destruct raw.
+  - destruct (negb (mem t (tids m))); [discriminate|].
+    match type of H with context [add_section ?a ?b ?c ?d] =>
+      pose proof (add_section_incl a b c d) as Hi; destruct (add_section a b c d) as [m2 s] end.
+    simpl in Hi. inversion H; subst m' v. destruct (add_fields_frame s (visible_cols m2 t) m2) as [_ [_ [F3 _]]].
+    rewrite F3. exact Hi.
+  - inversion H; subst. simpl. apply incl_refl.
+Qed.
+
 Lemma add_table_sections : forall name kinds pview m m' t,
   add_table name kinds pview m = Ok (m', t) -> incl (m_sections m) (m_sections m').
 Proof.
-  intros name kinds pview m m' t H. unfold add_table in H.
+  intros name kinds pview m m' t0 H. unfold add_table in H.
   destruct (mem name (m_schema m) || mem name (map t_name (m_tables m))); [discriminate|].
-  destruct pview.
-  - unfold add_view in H. cbn [negb] in H.
-    match type of H with context [if ?b then Fail else _] => destruct b; [discriminate|] end.
-    unfold add_section, bind in H. cbv zeta beta iota in H. cbn [fst snd] in H. inversion H; subst m'. clear H.
-    intros x Hx. unfold set_tables, add_fields, set_fields, set_sections. cbn [m_sections].
-    repeat (apply in_app_iff; left). exact Hx.
-  - unfold add_section, bind in H. cbv zeta beta iota in H. cbn [fst snd] in H. inversion H; subst m'. clear H.
-    intros x Hx. unfold set_tables, add_fields, set_fields, set_sections. cbn [m_sections].
-    repeat (apply in_app_iff; left). exact Hx.
+  set (t := next_id (tids m)) in *.
+  match type of H with context [bind (if pview then add_view t true ?mm else _)] => set (m0 := mm) in * end.
+  assert (E0 : m_sections m0 = m_sections m) by reflexivity.
+  destruct (if pview then add_view t true m0 else Ok (m0, 0)) as [[m1 v]| |] eqn:Ev; unfold bind in H; try discriminate.
+  cbv beta iota in H.
+  assert (I1 : incl (m_sections m) (m_sections m1)).
+  { rewrite <- E0. destruct pview; [apply (add_view_sections _ _ _ _ _ Ev) | inversion Ev; subst; apply incl_refl]. }
+  pose proof (add_section_incl t 0 false m1) as I2.
+  destruct (add_section t 0 false m1) as [m2 sraw]. simpl in I2.
+  destruct (add_fields_frame sraw (visible_cols m2 t) m2) as [_ [_ [F3 _]]].
+  set (m3 := add_fields sraw (visible_cols m2 t) m2) in *.
+  pose proof (add_section_incl t 0 false m3) as I4.
+  destruct (add_section t 0 false m3) as [m4 scard]. simpl in I4.
+  destruct (add_fields_frame scard (visible_cols m4 t) m4) as [_ [_ [F5 _]]].
+  inversion H; subst m' t0. unfold set_tables. cbn [m_sections]. rewrite F5.
+  intros x Hx. apply I4. try rewrite F3. apply I2. apply I1. exact Hx.
 Qed.
 
 Lemma set_refts_inv : forall X refts m, InvX X m -> InvX X (set_refts refts m).
